@@ -332,6 +332,18 @@ def num_compare(ctx, opname, a, b):
     if isinstance(a, SFP) or isinstance(b, SFP):
         if isinstance(a, SReal) or isinstance(b, SReal):
             raise Unsupported("mixing exact-real and bit-precise floats")
+        for f, i, flip in ((a, b, False), (b, a, True)):
+            if isinstance(f, SFP) and isinstance(i, SInt) and not (i.bv is not None and i.bv.size() <= 53):
+                # Python compares a float with an int exactly: go through the reals (NaN never compares, infinities by sign)
+                fx = f.term
+                rx, ri = z3.fpToReal(fx), z3.ToReal(i.term)
+                op = opname
+                if flip:
+                    op = {"Lt": "Gt", "LtE": "GtE", "Gt": "Lt", "GtE": "LtE", "Eq": "Eq"}[opname]
+                fin = {"Eq": rx == ri, "Lt": rx < ri, "LtE": rx <= ri, "Gt": rx > ri, "GtE": rx >= ri}[op]
+                neg = z3.fpIsNegative(fx)
+                inf = {"Eq": z3.BoolVal(False), "Lt": neg, "LtE": neg, "Gt": z3.Not(neg), "GtE": z3.Not(neg)}[op]
+                return z3.If(z3.fpIsNaN(fx), z3.BoolVal(False), z3.If(z3.fpIsInf(fx), inf, fin))
         x, y = fp_term(a, True), fp_term(b, True)
         return {"Eq": z3.fpEQ, "Lt": z3.fpLT, "LtE": z3.fpLEQ, "Gt": z3.fpGT,
                 "GtE": z3.fpGEQ}[opname](x, y)
@@ -459,6 +471,9 @@ def contains_term(ctx, item, container):
             raise SymRaise(TypeError("'in <string>' requires string as left operand, not %s"
                                      % pytype_of(item).__name__))
         return z3.Contains(str_term(container), str_term(item))
+    if isinstance(container, dict) and (contains_sym(item) or _has_symentries(ctx, container)):
+        from . import models as _m
+        return _m.symdict_lookup(ctx, None, container, item) is not _m._MISSING_
     if isinstance(container, (set, frozenset, dict)):
         keys = list(container)
         if contains_sym(keys):
@@ -481,6 +496,11 @@ def contains_term(ctx, item, container):
         raise SymRaise(TypeError("argument of type '%s' is not iterable"
                                  % pytype_of(container).__name__))
     raise Unsupported("`in` on %s" % type(container).__name__)
+
+
+def _has_symentries(ctx, d):
+    tbl = getattr(ctx, "__dict__", {}).get("symdicts", {})
+    return id(d) in tbl and bool(tbl[id(d)][1])
 
 
 def compare(ctx, op, a, b):
@@ -823,6 +843,12 @@ def getitem(ctx, obj, idx):
                         ctx.assume(cond)
                     return obj[j]
         raise Unsupported("symbolic index into %s" % type(obj).__name__)
+    if isinstance(obj, dict) and (contains_sym(idx) or _has_symentries(ctx, obj)):
+        from . import models as _m
+        v = _m.symdict_lookup(ctx, None, obj, idx)
+        if v is _m._MISSING_:
+            raise SymRaise(KeyError("<symbolic key>"))
+        return v
     if isinstance(idx, Sym):
         if isinstance(obj, (list, tuple, str)):
             raise SymRaise(TypeError("%s indices must be integers or slices, not %s"
